@@ -4,7 +4,7 @@
 set -u
 export GOFLAGS=-mod=mod GOPROXY=off GOSUMDB=off GOTOOLCHAIN=local
 S=/tmp/wt-lt-copy
-mkdir -p $S && rsync -a --delete --exclude .git /repo/ $S/ || exit 2
+SRC=${1:-/repo}; mkdir -p $S && rsync -a --delete --exclude .git $SRC/ $S/ || exit 2
 mkdir -p $S/cmd_scan && cat > $S/cmd_scan/main.go <<'EOG'
 package main
 
